@@ -155,3 +155,79 @@ def confirm(o, ctx):
     else:
         # left unconfirmed: the report's lock battery (exclusive, shared and range locks on a group of five) may still confirm it
         o.detail += "; the native range-lock scenarios (%d) show no processed locked file" % j.get("runs", 0)
+
+
+def execute_lock_first(rep, ctx):
+    """FsCommand::execute, all five variants (also RefLink, which the Kani harnesses do not cover): the lock on the file that is about to
+    be changed is requested before any other file-system relevant call, with the caller's should_lock flag, and a refusal is returned as
+    Err before anything else happens"""
+    prog = ctx.lib
+    f = prog.method("FsCommand", "execute")
+    variants = prog.src.enums.get("FsCommand") or []
+    changed = {"Remove": "file", "SoftLink": "link", "HardLink": "link", "RefLink": "link", "Move": "source"}
+    FS = r"FsCommand::(remove|safe_remove|symlink|hardlink|unsafe_rename|unsafe_copy|move_rename|move_copy|mkdirs|check_can_rename)$|(^|::)reflink$|fs::\w+$"
+    eng = oblig.engine(prog, inline=None, extra=dict(optsum.SUMMARIES))
+    lockb = Bool(z3.Bool("should_lock"))
+    verdict, detail, n, nq = "holds", "", 0, 0
+    o = Obligation("execute (Remove, SoftLink, HardLink, RefLink, Move): the lock on the changed file is requested first; a refusal ends the command with Err and nothing else is called",
+                   "E2 mirsym/z3", [], "5 command variants; wrappers and reflink are leaves")
+    o.key = "lock:execute-lock-first"
+    for vi, vn in enumerate(variants):
+        if vn not in changed:
+            verdict, detail = "inconclusive", "unknown FsCommand variant %s" % vn
+            break
+        cmd = EnumV("FsCommand", vn, vi, {})
+        ps = eng.run(f, args=[Ref("CMD", (), False), lockb, Lazy("log", f.args[2][1])], mem={"CMD": Lazy("cmd", "dedupe::FsCommand")}, pre=[z3.BitVec("cmd#d", 64) == vi])
+        seen = 0
+        for p in ps:
+            if p.status in ("abort", "bound"):
+                verdict, detail = "inconclusive", "%s: path %s %s" % (vn, p.status, p.note[:100])
+                continue
+            calls = [ev for ev in p.events if ev.kind == "call"]
+            rel = [ev for ev in calls if re.search(FS, ev.callee) or re.search(r"FsCommand::maybe_lock$", ev.callee)]
+            if not rel:
+                continue
+            seen += 1
+            n += 1
+            st = mirsym.State()
+            st.mem, st.pc = p.mem, list(p.pc)
+            first = rel[0]
+            ok = bool(re.search(r"maybe_lock$", first.callee))
+            if ok:
+                cn = summaries.canon(eng, st, first.args[0])
+                # index of the changed file's field inside the variant, from the enum definition in the source
+                src = prog.src.files.get("fclones/src/dedupe.rs", "")
+                m = re.search(r"pub enum FsCommand\s*\{(.*?)\n\}", src, re.S)
+                idx = None
+                if m:
+                    vm = re.search(r"\b%s\s*\{(.*?)\}" % vn, m.group(1), re.S)
+                    if vm:
+                        names = re.findall(r"(\w+)\s*:", re.sub(r"//[^\n]*", "", vm.group(1)))
+                        idx = names.index(changed[vn]) if changed[vn] in names else None
+                ok = idx is not None and cn.lstrip("&").startswith("cmd@%s.%d.path" % (vn, idx))
+                flag_ok = isinstance(first.args[1], Bool) and z3.eq(z3.simplify(first.args[1].t), lockb.t)
+                ok = ok and flag_ok
+                refused = z3.BitVec(mirsym.sanitize(first.ret.name + "#d"), 64) == 1 if isinstance(first.ret, Lazy) else None
+                if refused is not None:
+                    nq += 1
+                    # on a refused lock nothing else is called and Err is returned
+                    if eng.check(*(list(p.pc) + [refused])) == z3.sat and (len(rel) > 1 or not (isinstance(p.result, EnumV) and p.result.variant == "Err")):
+                        ok = False
+            if not ok:
+                nq += 1
+                if eng.check(*p.pc) == z3.sat:
+                    verdict = "violated"
+                    detail = "%s: the first file-system relevant call is %s(%s)" % (vn, first.callee[-30:], [summaries.canon(eng, st, a)[:40] for a in first.args][:2])
+                    o.cex = {"variant": vn, "calls": [ev.callee[-40:] for ev in rel][:6]}
+                    break
+        if verdict == "violated":
+            break
+        if seen == 0 and verdict == "holds":
+            verdict, detail = "inconclusive", "%s: no path with file-system calls explored" % vn
+    o.functions = oblig.fnames(eng)
+    o.queries = nq
+    o.stats = {"paths": n, "states": n, "transitions": eng.stats.get("blocks", 0)}
+    o.verdict, o.detail = verdict, detail
+    if verdict == "violated":
+        confirm(o, ctx)
+    rep.add(o)
